@@ -199,6 +199,11 @@ func builtinIntrinsics() map[string]intrinsic {
 		p.ensureInit(pk)
 		return nil
 	}
+	// verifLoopBound(n): from here on a loop head may be visited at most n times per frame (0 = engine default)
+	m["@verifLoopBound"] = func(p *Path, fr *frame, pos token.Pos, args []Value) Value {
+		p.loopBound = p.concInt(args[0], "loop bound")
+		return nil
+	}
 	m["@verifOnQuiescent"] = func(p *Path, fr *frame, pos token.Pos, args []Value) Value {
 		s := p.sch()
 		s.onQuiet = append(s.onQuiet, args[0])
